@@ -82,10 +82,14 @@ def suite(repo):
     return bad
 
 
-def run(worker, of, limit):
+def run(worker, of, limit, survivors_of=None, res_name="results.jsonl"):
     plan_ = [json.loads(l) for l in open(V + "/out/mutants/plan.jsonl")]
+    if survivors_of:
+        # second pass: only the mutants that survived an earlier pass, against the current checks
+        keep = {json.loads(l)["id"] for l in open(V + "/out/mutants/" + survivors_of) if json.loads(l)["status"] == "survived"}
+        plan_ = [p for p in plan_ if p["id"] in keep]
     done = set()
-    res_path = V + "/out/mutants/results.jsonl"
+    res_path = V + "/out/mutants/" + res_name
     if os.path.exists(res_path):
         done = {json.loads(l)["id"] for l in open(res_path)}
     mine = [p for i, p in enumerate(plan_) if i % of == worker and p["id"] not in done]
@@ -102,7 +106,9 @@ def run(worker, of, limit):
             t0 = time.time()
             r = dict(p, status="?", wall_s=0)
             path = os.path.join(repo, p["file"])
-            rc, out = sh("/verif/out/mutgen -file /repo/%s -apply %d -out %s" % (p["file"], p["n"], path), "/")
+            sh("git checkout -- .", repo)
+            # the original comes from the worker's own clean tree: /repo may carry a seeded patch meanwhile
+            rc, out = sh("/verif/out/mutgen -file %s -apply %d -out %s.mut && mv %s.mut %s" % (path, p["n"], path, path, path), "/")
             if rc != 0:
                 r["status"] = "mutgen-error"
             else:
@@ -155,8 +161,8 @@ def one(mid, props):
         sh("git -C /repo worktree remove --force %s; rm -rf %s %s; git -C /repo worktree prune" % (repo, repo, vw), "/")
 
 
-def report():
-    rs = [json.loads(l) for l in open(V + "/out/mutants/results.jsonl")]
+def report(res_name="results.jsonl"):
+    rs = [json.loads(l) for l in open(V + "/out/mutants/" + res_name)]
     from collections import Counter
     c = Counter(r["status"] for r in rs)
     print(dict(c))
@@ -180,8 +186,8 @@ if __name__ == "__main__":
         fs = opt("--files")
         plan(fs.split(",") if fs else list(FILES))
     elif cmd == "run":
-        run(int(opt("--worker", "0")), int(opt("--of", "1")), int(opt("--limit", "0")))
+        run(int(opt("--worker", "0")), int(opt("--of", "1")), int(opt("--limit", "0")), opt("--survivors-of"), opt("--results", "results.jsonl"))
     elif cmd == "one":
         one(args[0], args[1:])
     elif cmd == "report":
-        report()
+        report(opt("--results", "results.jsonl"))
